@@ -158,8 +158,12 @@ def run_algorithm(name, ctx, seed, N, G, n_params=1, n_costs=1, bounds=None, cri
     except BaseException as e:   # noqa
         from ..core.common import HarnessError
         from ..core.explorer import HorizonHit
-        if isinstance(e, (HarnessError, HorizonHit, KeyboardInterrupt)):
+        if isinstance(e, (HarnessError, KeyboardInterrupt)):
             raise
+        if isinstance(e, HorizonHit):
+            # tens of thousands of choice points in one small run: the algorithm is not terminating (livelock)
+            from ..core.shim import DrawBudgetExceeded
+            e = DrawBudgetExceeded("choice-point horizon reached: the run does not terminate")
         exc = e
     finally:
         sh.ctx = None
